@@ -12,23 +12,131 @@ open Saltpack Saltpack.Stream
 
 /-! ## plaintext bufferer of the three encoder streams -/
 
+theorem drain_spec (bs : Nat) (hb : 0 < bs) : ∀ (fuel : Nat) (c : Chunker), c.bs = bs → c.buf.length ≤ fuel →
+    (Chunker.drain fuel c).buf.length ≤ bs ∧ (Chunker.drain fuel c).bs = bs ∧
+    (Chunker.drain fuel c).emitted.flatten ++ (Chunker.drain fuel c).buf = c.emitted.flatten ++ c.buf ∧
+    ((∀ e ∈ c.emitted, e.length = bs) → ∀ e ∈ (Chunker.drain fuel c).emitted, e.length = bs) ∧
+    (c.buf ≠ [] → (Chunker.drain fuel c).buf ≠ []) ∧
+    (c.buf = [] → Chunker.drain fuel c = c) := by
+  intro fuel
+  induction fuel with
+  | zero =>
+    intro c hbs hf
+    have : c.buf = [] := List.length_eq_zero_iff.mp (by omega)
+    simp [Chunker.drain, this, hbs]
+  | succ fuel ih =>
+    intro c hbs hf
+    unfold Chunker.drain
+    by_cases hgt : c.buf.length > c.bs
+    · rw [if_pos hgt]
+      have hlen : (c.buf.drop c.bs).length = c.buf.length - c.bs := List.length_drop
+      obtain ⟨h1, h2, h3, h4, h5, h6⟩ := ih { c with buf := c.buf.drop c.bs, emitted := c.emitted ++ [c.buf.take c.bs] } hbs (by simp only [hlen]; omega)
+      refine ⟨h1, h2, ?_, ?_, ?_, ?_⟩
+      · rw [h3]; simp
+      · intro hall
+        apply h4
+        intro e he
+        rcases List.mem_append.mp he with he | he
+        · exact hall e he
+        · simp only [List.mem_singleton] at he
+          subst he
+          rw [List.length_take]; omega
+      · intro _
+        apply h5
+        intro h0
+        simp only at h0
+        rw [h0] at hlen
+        simp at hlen; omega
+      · intro h0; rw [h0] at hgt; simp at hgt
+    · rw [if_neg hgt]
+      refine ⟨by omega, hbs, rfl, fun h => h, fun h => h, fun _ => rfl⟩
+
 /-- bounded buffering: after every `Write` at most one block is buffered,
     whatever the total length -/
 theorem chunker_bounded (c : Chunker) (hb : 0 < c.bs) (p : Bytes) : (c.write p).buf.length ≤ c.bs := by
-  sorry
+  unfold Chunker.write
+  exact (drain_spec c.bs hb _ { c with buf := c.buf ++ p } rfl (by simp)).1
 
 /-- `Write` never loses or reorders bytes: emitted blocks ++ buffer = everything written -/
 theorem chunker_conserves (c : Chunker) (hb : 0 < c.bs) (p : Bytes) :
     (c.write p).emitted.flatten ++ (c.write p).buf = c.emitted.flatten ++ c.buf ++ p ∧
     (c.write p).bs = c.bs := by
-  sorry
+  unfold Chunker.write
+  have := drain_spec c.bs hb (c.buf.length + p.length + 1) { c with buf := c.buf ++ p } rfl (by simp)
+  exact ⟨by rw [this.2.2.1]; simp, this.2.1⟩
+
+
+theorem chunks_blocks {α : Type} (bs : Nat) (hb : 0 < bs) (E : List (List α)) (R : List α)
+    (h : ∀ e ∈ E, e.length = bs) : chunks bs (E.flatten ++ R) = E ++ chunks bs R := by
+  induction E with
+  | nil => simp
+  | cons e E ih =>
+    rw [List.flatten_cons, List.append_assoc, chunks_append bs hb e _ (h e (by simp)),
+      ih (fun x hx => h x (by simp [hx]))]
+    rfl
+
+/-- invariant of the bufferer -/
+structure ChInv (bs : Nat) (T : Bytes) (c : Chunker) : Prop where
+  hbs : c.bs = bs
+  cons : c.emitted.flatten ++ c.buf = T
+  full : ∀ e ∈ c.emitted, e.length = bs
+  bound : c.buf.length ≤ bs
+  ne : c.buf = [] → c.emitted = []
+
+theorem chInv_write (bs : Nat) (hb : 0 < bs) (T : Bytes) (c : Chunker) (h : ChInv bs T c) (p : Bytes) :
+    ChInv bs (T ++ p) (c.write p) := by
+  have hd := drain_spec bs hb (c.buf.length + p.length + 1) { c with buf := c.buf ++ p } h.hbs (by simp)
+  obtain ⟨h1, h2, h3, h4, h5, h6⟩ := hd
+  refine ⟨h2, ?_, h4 h.full, h1, ?_⟩
+  · show (Chunker.drain _ _).emitted.flatten ++ (Chunker.drain _ _).buf = _
+    rw [h3, ← h.cons]; simp
+  · intro h0
+    by_cases hbp : c.buf ++ p = []
+    · have := h6 hbp
+      unfold Chunker.write
+      rw [this]
+      apply h.ne
+      simp at hbp
+      exact hbp.1
+    · exact absurd h0 (h5 hbp)
+
+theorem chInv_fold (bs : Nat) (hb : 0 < bs) (ws : List Bytes) : ∀ (T : Bytes) (c : Chunker), ChInv bs T c →
+    ChInv bs (T ++ ws.flatten) (ws.foldl Chunker.write c) := by
+  induction ws with
+  | nil => intro T c h; simpa using h
+  | cons w ws ih =>
+    intro T c h
+    rw [List.foldl_cons, List.flatten_cons, ← List.append_assoc]
+    exact ih _ _ (chInv_write bs hb T c h w)
+
+theorem chInv_chunks (bs : Nat) (hb : 0 < bs) (T : Bytes) (c : Chunker) (h : ChInv bs T c) :
+    chunks bs T = c.emitted ++ (if c.buf = [] then [] else [c.buf]) := by
+  rw [← h.cons, chunks_blocks bs hb _ _ h.full]
+  by_cases h0 : c.buf = []
+  · rw [h0, chunks_nil]; simp
+  · rw [chunks_short bs _ h0 h.bound, if_neg h0]
 
 /-- **Write-split independence**: whatever way the plaintext is split over
     `Write` calls (empty writes included), `Close` yields exactly the chunk plan
     of the all-at-once form. -/
 theorem chunker_any_split (bs : Nat) (hb : 0 < bs) (v : Version) (ws : List Bytes) :
     (ws.foldl Chunker.write ({ bs := bs } : Chunker)).close v = Encrypt.chunkPlan v bs ws.flatten := by
-  sorry
+  have hinv := chInv_fold bs hb ws [] { bs := bs } ⟨rfl, rfl, by simp, by simp, fun _ => rfl⟩
+  rw [List.nil_append] at hinv
+  generalize ws.foldl Chunker.write ({ bs := bs } : Chunker) = c at hinv
+  generalize ws.flatten = T at hinv
+  have hc := chInv_chunks bs hb T c hinv
+  unfold Chunker.close Encrypt.chunkPlan
+  simp only [hc]
+  by_cases hv : v = v1
+  · simp only [if_pos hv]
+    by_cases h0 : c.buf = []
+    · simp [h0]
+    · simp [h0]
+  · simp only [if_neg hv]
+    by_cases h0 : c.buf = []
+    · simp [h0, hinv.ne h0]
+    · simp [h0]
 
 /-! ## chunkReader -/
 
@@ -49,15 +157,95 @@ def crPending : CRState Source → Bytes
           | (d, none) :: rest => d ++ go rest
         go s.chunker)
 
+def SrcWF (src : Source) : Prop := ∀ p ∈ src, p.1 = [] → p.2 ≠ none
+
+theorem crPending_eq (s : CRState Source) :
+    crPending s = s.prevChunk ++ (match s.prevErr with | some _ => [] | none => crPending.go s.chunker) := rfl
+
+/-- one fetch from the script: what is pending does not change -/
+theorem scriptNext_spec (src : Source) (hwf : SrcWF src) :
+    ¬ ((scriptNext src).1.isEmpty = true ∧ (scriptNext src).2.1.isNone = true) ∧
+    SrcWF (scriptNext src).2.2 ∧
+    crPending.go src = (scriptNext src).1 ++
+      (match (scriptNext src).2.1 with | some _ => [] | none => crPending.go (scriptNext src).2.2) := by
+  cases src with
+  | nil => simp [scriptNext, crPending.go, SrcWF]
+  | cons hd rest =>
+    obtain ⟨d, e⟩ := hd
+    refine ⟨?_, fun p hp => hwf p (List.mem_cons_of_mem _ hp), ?_⟩
+    · simp only [scriptNext]
+      intro ⟨h1, h2⟩
+      have := hwf (d, e) (by simp) (by simpa using h1)
+      cases e with
+      | none => exact this rfl
+      | some x => simp at h2
+    · cases e <;> simp [scriptNext, crPending.go]
+
+
+theorem crRead_aux (cap : Nat) : ∀ (fuel : Nat) (s : CRState Source) (acc d : Bytes) (e : Option RErr)
+    (s' : CRState Source), SrcWF s.chunker → acc.length ≤ cap →
+    crRead scriptNext cap fuel s acc = (d, e, s') →
+    d.length ≤ cap ∧ acc ++ crPending s = d ++ crPending s' ∧ SrcWF s'.chunker ∧
+    (∀ x, e = some x → s'.prevChunk = [] ∧ s'.prevErr = some x) := by
+  intro fuel
+  induction fuel with
+  | zero =>
+    intro s acc d e s' hwf hacc h
+    simp only [crRead, Prod.mk.injEq] at h
+    obtain ⟨rfl, rfl, rfl⟩ := h
+    exact ⟨hacc, rfl, hwf, fun x hx => by simp at hx⟩
+  | succ fuel ih =>
+    intro s acc d e s' hwf hacc h
+    unfold crRead at h
+    simp only at h
+    have hlen : (acc ++ s.prevChunk.take (cap - acc.length)).length ≤ cap := by
+      rw [List.length_append, List.length_take]; omega
+    by_cases hleft : (s.prevChunk.drop (cap - acc.length)).isEmpty = true
+    · rw [if_neg (by simp [hleft])] at h
+      have hleft' : s.prevChunk.drop (cap - acc.length) = [] := by simpa using hleft
+      have htake : s.prevChunk.take (cap - acc.length) = s.prevChunk := by
+        have := List.take_append_drop (cap - acc.length) s.prevChunk
+        rw [hleft', List.append_nil] at this
+        exact this
+      rw [htake] at h hlen
+      cases hpe : s.prevErr with
+      | some x =>
+        simp only [hpe, Prod.mk.injEq] at h
+        obtain ⟨rfl, rfl, rfl⟩ := h
+        refine ⟨hlen, ?_, hwf, ?_⟩
+        · simp [crPending_eq, hpe]
+        · intro y hy
+          simp only [Option.some.injEq] at hy
+          subst hy
+          exact ⟨rfl, rfl⟩
+      | none =>
+        simp only [hpe] at h
+        obtain ⟨n1, n2, n3⟩ := scriptNext_spec s.chunker hwf
+        rw [if_neg (by simpa using n1)] at h
+        obtain ⟨i1, i2, i3, i4⟩ := ih _ _ _ _ _ n2 hlen h
+        refine ⟨i1, ?_, i3, i4⟩
+        rw [← i2]
+        simp only [crPending_eq, hpe, n3]
+        simp
+    · rw [if_pos (by simp [hleft])] at h
+      simp only [Prod.mk.injEq] at h
+      obtain ⟨rfl, rfl, rfl⟩ := h
+      refine ⟨hlen, ?_, hwf, fun x hx => by simp at hx⟩
+      simp only [crPending_eq]
+      rw [List.append_assoc, ← List.append_assoc (List.take _ _), List.take_append_drop]
+
+
 /-- every `Read` hands out a prefix of what is pending — never more than the
     caller's buffer — and leaves the rest pending: bytes are delivered exactly
     once, in order, whatever the buffer sizes.  (Entries are well-formed: no
-    empty chunk without a condition — the Go code panics on those.) -/
+    empty chunk without a condition — the Go code panics on those.)  Holds for
+    any fuel; the stated fuel is the one the driver uses. -/
 theorem crRead_prefix (cap : Nat) (s : CRState Source)
     (hwf : ∀ p ∈ s.chunker, p.1 = [] → p.2 ≠ none) (d : Bytes) (e : Option RErr) (s' : CRState Source)
     (h : crRead scriptNext cap (s.chunker.length + 3) s [] = (d, e, s')) :
     d.length ≤ cap ∧ crPending s = d ++ crPending s' ∧ (∀ p ∈ s'.chunker, p.1 = [] → p.2 ≠ none) := by
-  sorry
+  obtain ⟨h1, h2, h3, _⟩ := crRead_aux cap _ s [] d e s' hwf (by simp) h
+  exact ⟨h1, by simpa using h2, h3⟩
 
 /-- a condition (EOF or error) is reported only when nothing is pending any
     more, and from then on it is reported again (sticky) -/
@@ -66,9 +254,371 @@ theorem crRead_terminal (cap : Nat) (s : CRState Source)
     (h : crRead scriptNext cap (s.chunker.length + 3) s [] = (d, some x, s')) :
     crPending s' = [] ∧
     crRead scriptNext cap (s'.chunker.length + 3) s' [] = ([], some x, s') := by
-  sorry
+  obtain ⟨_, _, _, h4⟩ := crRead_aux cap _ s [] d (some x) s' hwf (by simp) h
+  obtain ⟨hc, he⟩ := h4 x rfl
+  constructor
+  · simp [crPending_eq, hc, he]
+  · obtain ⟨ck, pc, pe⟩ := s'
+    simp only at hc he
+    subst hc he
+    simp [crRead]
 
 /-! ## BaseX encoder stream -/
+
+/-! under -/
+theorem under_spec (s : EncState) (d : Bytes) :
+    (s.under d).2.enc = s.enc ∧ (s.under d).2.buf = s.buf ∧
+    ((s.under d).2.failed = true ↔ ((s.under d).1 = false ∨ s.failed = true)) := by
+  unfold EncState.under
+  cases hs : s.sink with
+  | nil => simp
+  | cons f rest =>
+    cases f <;> simp
+
+theorem under_nofail (s : EncState) (d : Bytes) (hs : s.sink = []) :
+    s.under d = (true, { s with written := s.written ++ [d] }) := by
+  unfold EncState.under
+  rw [hs]
+
+/-- the `rest` part of `Write` -/
+def encRest (s1 : EncState) (p1 : Bytes) (n0 : Nat) : Nat × Bool × EncState :=
+  let r := EncState.interior (p1.length + 1) s1 p1 n0
+  if !r.1 then (r.2.2.2, false, r.2.1) else (r.2.2.2 + r.2.2.1.length, true, { r.2.1 with buf := r.2.2.1 })
+
+/-- the leading fringe of a `Write` -/
+def encFringe (s : EncState) (p : Bytes) : Bytes := s.buf ++ p.take (s.enc.blockLen - s.buf.length)
+def encFringeU (s : EncState) (p : Bytes) : Bool × EncState :=
+  ({ s with buf := [] } : EncState).under (Basex.encode s.enc (encFringe s p))
+def encTl (s : EncState) (p : Bytes) : Nat := (p.take (s.enc.blockLen - s.buf.length)).length
+
+theorem write_eq (s : EncState) (p : Bytes) :
+    s.write p =
+      if s.failed = true then (0, false, s)
+      else if (!s.buf.isEmpty) = true then
+        if (encFringe s p).length < s.enc.blockLen then (encTl s p, true, { s with buf := encFringe s p })
+        else
+          if (!(encFringeU s p).1) = true then (encTl s p, false, (encFringeU s p).2)
+          else encRest (encFringeU s p).2 (p.drop (encTl s p)) (encTl s p)
+      else encRest s p 0 := by
+  rfl
+
+theorem nn_spec (ibl len : Nat) (hb : 0 < ibl) (hl : ibl ≤ len) :
+    let nn := if 128 * ibl > len then len - len % ibl else 128 * ibl
+    ibl ∣ nn ∧ ibl ≤ nn ∧ nn ≤ len := by
+  intro nn
+  by_cases h : 128 * ibl > len
+  · have hnn : nn = ibl * (len / ibl) := by
+      have := Nat.div_add_mod len ibl
+      simp only [nn, if_pos h]; omega
+    have hpos : 0 < len / ibl := Nat.div_pos hl hb
+    rw [hnn]
+    refine ⟨Nat.dvd_mul_right _ _, ?_, Nat.mul_div_le _ _⟩
+    calc ibl = ibl * 1 := (Nat.mul_one _).symm
+      _ ≤ ibl * (len / ibl) := Nat.mul_le_mul_left _ hpos
+  · have hnn : nn = 128 * ibl := by simp only [nn, if_neg h]
+    rw [hnn]
+    exact ⟨Nat.dvd_mul_left _ _, by omega, by omega⟩
+
+theorem interior_gen : ∀ (fuel : Nat) (s : EncState) (p : Bytes) (n : Nat),
+    let r := EncState.interior fuel s p n
+    r.2.1.enc = s.enc ∧ r.2.1.buf = s.buf ∧
+    (r.2.1.failed = true → r.1 = false ∨ s.failed = true) ∧
+    (0 < s.enc.blockLen → p.length < fuel → r.1 = true → r.2.2.1.length < s.enc.blockLen) := by
+  intro fuel
+  induction fuel with
+  | zero =>
+    intro s p n
+    simp [EncState.interior]
+  | succ fuel ih =>
+    intro s p n
+    unfold EncState.interior
+    by_cases hge : p.length ≥ s.enc.blockLen
+    · simp only [if_pos hge]
+      generalize hnn : (if 128 * s.enc.blockLen > p.length then p.length - p.length % s.enc.blockLen else 128 * s.enc.blockLen) = nn
+      obtain ⟨u1, u2, u3⟩ := under_spec s (Basex.encode s.enc (p.take nn))
+      cases hu : (s.under (Basex.encode s.enc (p.take nn))).1 with
+      | false =>
+        simp only [Bool.not_false, if_true]
+        refine ⟨u1, u2, fun _ => Or.inl trivial, fun _ _ h => by simp at h⟩
+      | true =>
+        simp only [Bool.not_true, Bool.false_eq_true, if_false]
+        obtain ⟨i1, i2, i3, i4⟩ := ih (s.under (Basex.encode s.enc (p.take nn))).2 (p.drop nn) (n + nn)
+        refine ⟨i1.trans u1, i2.trans u2, ?_, ?_⟩
+        · intro hf
+          rcases i3 hf with h | h
+          · exact Or.inl h
+          · rcases u3.mp h with h' | h'
+            · rw [hu] at h'; simp at h'
+            · exact Or.inr h'
+        · intro hb hl hr
+          rw [u1] at i4
+          apply i4 hb _ hr
+          have := nn_spec s.enc.blockLen p.length hb hge
+          rw [hnn] at this
+          rw [List.length_drop]; omega
+    · simp only [if_neg hge]
+      exact ⟨trivial, trivial, Or.inr, fun _ _ _ => by omega⟩
+
+
+theorem encRest_spec (s : EncState) (p : Bytes) (n : Nat) :
+    ((encRest s p n).2.2.failed = true → (encRest s p n).2.1 = false ∨ s.failed = true) ∧
+    (encRest s p n).2.2.enc = s.enc ∧
+    (0 < s.enc.blockLen → s.buf.length < s.enc.blockLen → (encRest s p n).2.2.buf.length < s.enc.blockLen) := by
+  obtain ⟨i1, i2, i3, i4⟩ := interior_gen (p.length + 1) s p n
+  unfold encRest
+  cases hr : (EncState.interior (p.length + 1) s p n).1 with
+  | false =>
+    simp only [hr, Bool.not_false, if_true]
+    exact ⟨fun _ => Or.inl trivial, i1, fun _ h => by rw [i2]; exact h⟩
+  | true =>
+    simp only [hr, Bool.not_true, Bool.false_eq_true, if_false]
+    refine ⟨fun h => ?_, i1, fun hb _ => i4 hb (by omega) hr⟩
+    rcases i3 h with h' | h'
+    · rw [hr] at h'; simp at h'
+    · exact Or.inr h'
+
+
+theorem write_failed (s : EncState) (p : Bytes) (hf : s.failed = true) : s.write p = (0, false, s) := by
+  rw [write_eq, if_pos hf]
+
+theorem write_empty (s : EncState) (p : Bytes) (hf : s.failed = false) (he : s.buf = []) :
+    s.write p = encRest s p 0 := by
+  rw [write_eq, if_neg (by simp [hf]), if_neg (by simp [he])]
+
+theorem write_short (s : EncState) (p : Bytes) (hf : s.failed = false) (he : s.buf ≠ [])
+    (hl : (encFringe s p).length < s.enc.blockLen) :
+    s.write p = (encTl s p, true, { s with buf := encFringe s p }) := by
+  rw [write_eq, if_neg (by simp [hf]), if_pos (by simp [he]), if_pos hl]
+
+theorem write_long_fail (s : EncState) (p : Bytes) (hf : s.failed = false) (he : s.buf ≠ [])
+    (hl : ¬ (encFringe s p).length < s.enc.blockLen) (hu : (encFringeU s p).1 = false) :
+    s.write p = (encTl s p, false, (encFringeU s p).2) := by
+  rw [write_eq, if_neg (by simp [hf]), if_pos (by simp [he]), if_neg hl, if_pos (by simp [hu])]
+
+theorem write_long_ok (s : EncState) (p : Bytes) (hf : s.failed = false) (he : s.buf ≠ [])
+    (hl : ¬ (encFringe s p).length < s.enc.blockLen) (hu : (encFringeU s p).1 = true) :
+    s.write p = encRest (encFringeU s p).2 (p.drop (encTl s p)) (encTl s p) := by
+  rw [write_eq, if_neg (by simp [hf]), if_pos (by simp [he]), if_neg hl, if_neg (by simp [hu])]
+
+theorem encFringeU_spec (s : EncState) (p : Bytes) :
+    (encFringeU s p).2.enc = s.enc ∧ (encFringeU s p).2.buf = [] ∧
+    ((encFringeU s p).2.failed = true ↔ ((encFringeU s p).1 = false ∨ s.failed = true)) :=
+  under_spec { s with buf := [] } _
+
+/-- bounded buffering: fewer than one block is held back between calls -/
+theorem encStream_bounded (s : EncState) (hb : 0 < s.enc.blockLen) (hs : s.buf.length < s.enc.blockLen) (p : Bytes) :
+    (s.write p).2.2.buf.length < s.enc.blockLen := by
+  cases hf : s.failed with
+  | true => rw [write_failed s p hf]; exact hs
+  | false =>
+    by_cases he : s.buf = []
+    · rw [write_empty s p hf he]
+      exact (encRest_spec s p 0).2.2 hb hs
+    · by_cases hl : (encFringe s p).length < s.enc.blockLen
+      · rw [write_short s p hf he hl]; exact hl
+      · obtain ⟨u1, u2, u3⟩ := encFringeU_spec s p
+        cases hu : (encFringeU s p).1 with
+        | false => rw [write_long_fail s p hf he hl hu, u2]; exact hb
+        | true =>
+          rw [write_long_ok s p hf he hl hu]
+          have := (encRest_spec (encFringeU s p).2 (p.drop (encTl s p)) (encTl s p)).2.2
+          rw [u1, u2] at this
+          exact this hb hb
+
+/-- **faults are sticky and reported**: once an underlying write has failed,
+    every later `Write` reports failure and `Close` does too -/
+theorem encStream_sticky (s : EncState) (hf : s.failed = true) (p : Bytes) :
+    (s.write p).2.1 = false ∧ (s.write p).2.2.failed = true ∧ s.close.1 = false := by
+  rw [write_failed s p hf]
+  simp [hf, EncState.close]
+
+/-- a `Write`/`Close` that reports success has not seen a failing underlying write -/
+theorem encStream_write_reports (s : EncState) (p : Bytes) :
+    (s.write p).2.2.failed = true → (s.write p).2.1 = false ∨ s.failed = true := by
+  cases hf : s.failed with
+  | true => intro _; exact Or.inr rfl
+  | false =>
+    by_cases he : s.buf = []
+    · rw [write_empty s p hf he]
+      intro h
+      rcases (encRest_spec s p 0).1 h with h' | h'
+      · exact Or.inl h'
+      · rw [hf] at h'; simp at h'
+    · by_cases hl : (encFringe s p).length < s.enc.blockLen
+      · rw [write_short s p hf he hl]; intro h; exact Or.inr (hf ▸ h)
+      · obtain ⟨u1, u2, u3⟩ := encFringeU_spec s p
+        cases hu : (encFringeU s p).1 with
+        | false => rw [write_long_fail s p hf he hl hu]; exact fun _ => Or.inl rfl
+        | true =>
+          rw [write_long_ok s p hf he hl hu]
+          intro h
+          rcases (encRest_spec (encFringeU s p).2 _ _).1 h with h' | h'
+          · exact Or.inl h'
+          · rcases u3.mp h' with h'' | h''
+            · rw [hu] at h''; simp at h''
+            · rw [hf] at h''; simp at h''
+
+theorem encStream_close_reports (s : EncState) : s.close.2.failed = true → s.close.1 = false := by
+  unfold EncState.close
+  by_cases h : (!s.failed) = true ∧ (!s.buf.isEmpty) = true
+  · rw [if_pos h]
+    obtain ⟨u1, u2, u3⟩ := under_spec s (Basex.encode s.enc s.buf)
+    intro hf
+    rcases u3.mp hf with h' | h'
+    · exact h'
+    · rw [h'] at h; simp at h
+  · rw [if_neg h]
+    intro hf
+    simp only at hf
+    simp [hf]
+
+
+/-! ### split independence -/
+
+theorem take_drop_length {α : Type} (k : Nat) (p : List α) : p.take k ++ p.drop (p.take k).length = p := by
+  rw [List.length_take]
+  by_cases h : k ≤ p.length
+  · rw [Nat.min_eq_left h, List.take_append_drop]
+  · rw [Nat.min_eq_right (by omega), List.take_of_length_le (by omega), List.drop_length, List.append_nil]
+
+theorem encode_append_dvd (e : Basex.Enc) (he : e.WF) : ∀ (k : Nat) (a b : Bytes), a.length = e.blockLen * k →
+    Basex.encode e (a ++ b) = Basex.encode e a ++ Basex.encode e b := by
+  intro k
+  induction k with
+  | zero =>
+    intro a b h
+    have : a = [] := List.length_eq_zero_iff.mp (by simpa using h)
+    subst this
+    rw [encode_nil]; rfl
+  | succ k ih =>
+    intro a b h
+    have hpos := he.block_pos
+    have hle : e.blockLen ≤ a.length := by rw [h, Nat.mul_succ]; omega
+    have ht : (a.take e.blockLen).length = e.blockLen := by rw [List.length_take]; omega
+    have hd : (a.drop e.blockLen).length = e.blockLen * k := by rw [List.length_drop, h, Nat.mul_succ]; omega
+    have ha : a = a.take e.blockLen ++ a.drop e.blockLen := (List.take_append_drop _ _).symm
+    calc Basex.encode e (a ++ b)
+        = Basex.encode e (a.take e.blockLen ++ (a.drop e.blockLen ++ b)) := by
+          rw [← List.append_assoc, List.take_append_drop]
+      _ = Basex.encodeBlock e (a.take e.blockLen) ++ (Basex.encode e (a.drop e.blockLen) ++ Basex.encode e b) := by
+          rw [encode_append e he _ _ ht, ih _ b hd]
+      _ = Basex.encode e (a.take e.blockLen ++ a.drop e.blockLen) ++ Basex.encode e b := by
+          rw [encode_append e he _ _ ht, List.append_assoc]
+      _ = Basex.encode e a ++ Basex.encode e b := by rw [List.take_append_drop]
+
+theorem encode_append_of_dvd (e : Basex.Enc) (he : e.WF) (a b : Bytes) (h : e.blockLen ∣ a.length) :
+    Basex.encode e (a ++ b) = Basex.encode e a ++ Basex.encode e b := by
+  obtain ⟨k, hk⟩ := h
+  exact encode_append_dvd e he k a b hk
+
+theorem interior_nofail : ∀ (fuel : Nat) (s : EncState) (p : Bytes) (n : Nat),
+    s.enc.WF → s.sink = [] → s.failed = false → p.length < fuel →
+    let r := EncState.interior fuel s p n
+    r.1 = true ∧ r.2.1.enc = s.enc ∧ r.2.1.sink = [] ∧ r.2.1.failed = false ∧ r.2.1.buf = s.buf ∧
+    r.2.2.1.length < s.enc.blockLen ∧
+    ∃ B, s.enc.blockLen ∣ B.length ∧ p = B ++ r.2.2.1 ∧
+      r.2.1.written.flatten = s.written.flatten ++ Basex.encode s.enc B := by
+  intro fuel
+  induction fuel with
+  | zero => intro s p n _ _ _ h; omega
+  | succ fuel ih =>
+    intro s p n he hs hf hl
+    unfold EncState.interior
+    by_cases hge : p.length ≥ s.enc.blockLen
+    · simp only [if_pos hge]
+      have hnn := nn_spec s.enc.blockLen p.length he.block_pos hge
+      generalize (if 128 * s.enc.blockLen > p.length then p.length - p.length % s.enc.blockLen else 128 * s.enc.blockLen) = nn at hnn
+      simp only at hnn
+      obtain ⟨hn1, hn2, hn3⟩ := hnn
+      rw [under_nofail s _ hs]
+      simp only [Bool.not_true, Bool.false_eq_true, if_false]
+      have hpos := he.block_pos
+      obtain ⟨i1, i2, i3, i4, i5, i6, B, hB1, hB2, hB3⟩ :=
+        ih { s with written := s.written ++ [Basex.encode s.enc (p.take nn)] } (p.drop nn) (n + nn) he hs hf
+          (by rw [List.length_drop]; omega)
+      refine ⟨i1, i2, i3, i4, i5, i6, p.take nn ++ B, ?_, ?_, ?_⟩
+      · rw [List.length_append, List.length_take, Nat.min_eq_left hn3]
+        exact (Nat.dvd_add_right hn1).mpr hB1
+      · rw [List.append_assoc, ← hB2, List.take_append_drop]
+      · rw [hB3]
+        simp only [List.flatten_append, List.flatten_cons, List.flatten_nil, List.append_nil]
+        rw [encode_append_of_dvd s.enc he (p.take nn) B (by rw [List.length_take, Nat.min_eq_left hn3]; exact hn1),
+          List.append_assoc]
+    · simp only [if_neg hge]
+      exact ⟨trivial, trivial, hs, hf, trivial, by omega, [], by simp, by simp, by simp [encode_nil]⟩
+
+theorem encRest_nofail (s : EncState) (p : Bytes) (n : Nat) (he : s.enc.WF) (hs : s.sink = []) (hf : s.failed = false) :
+    (encRest s p n).2.1 = true ∧ (encRest s p n).2.2.enc = s.enc ∧ (encRest s p n).2.2.sink = [] ∧
+    (encRest s p n).2.2.failed = false ∧ (encRest s p n).2.2.buf.length < s.enc.blockLen ∧
+    ∃ B, s.enc.blockLen ∣ B.length ∧ p = B ++ (encRest s p n).2.2.buf ∧
+      (encRest s p n).2.2.written.flatten = s.written.flatten ++ Basex.encode s.enc B := by
+  obtain ⟨i1, i2, i3, i4, i5, i6, B, hB1, hB2, hB3⟩ := interior_nofail (p.length + 1) s p n he hs hf (by omega)
+  unfold encRest
+  simp only [i1, Bool.not_true, Bool.false_eq_true, if_false]
+  exact ⟨trivial, i2, i3, i4, i6, B, hB1, hB2, hB3⟩
+
+/-- invariant of the encoder stream over a writer that never fails -/
+structure EncInv (enc : Basex.Enc) (T : Bytes) (s : EncState) : Prop where
+  henc : s.enc = enc
+  sink : s.sink = []
+  nf : s.failed = false
+  bound : s.buf.length < enc.blockLen
+  ex : ∃ A, enc.blockLen ∣ A.length ∧ T = A ++ s.buf ∧ s.written.flatten = Basex.encode enc A
+
+theorem encInv_write (enc : Basex.Enc) (he : enc.WF) (T : Bytes) (s : EncState) (h : EncInv enc T s) (p : Bytes) :
+    (s.write p).2.1 = true ∧ EncInv enc (T ++ p) (s.write p).2.2 := by
+  obtain ⟨henc, hs, hf, hbd, A, hA1, hA2, hA3⟩ := h
+  subst henc
+  by_cases hb : s.buf = []
+  · rw [write_empty s p hf hb]
+    obtain ⟨r1, r2, r3, r4, r5, B, hB1, hB2, hB3⟩ := encRest_nofail s p 0 he hs hf
+    refine ⟨r1, r2, r3, r4, r5, A ++ B, ?_, ?_, ?_⟩
+    · rw [List.length_append]; exact (Nat.dvd_add_right hA1).mpr hB1
+    · rw [hA2, hb, List.append_nil, List.append_assoc, ← hB2]
+    · rw [hB3, hA3, encode_append_of_dvd s.enc he A B hA1]
+  · have hbpos : 0 < s.buf.length := List.length_pos_iff.mpr hb
+    by_cases hl : (encFringe s p).length < s.enc.blockLen
+    · rw [write_short s p hf hb hl]
+      have hp : p.take (s.enc.blockLen - s.buf.length) = p := by
+        apply List.take_of_length_le
+        unfold encFringe at hl
+        rw [List.length_append, List.length_take] at hl
+        omega
+      refine ⟨rfl, rfl, hs, hf, hl, A, hA1, ?_, hA3⟩
+      show T ++ p = A ++ encFringe s p
+      unfold encFringe
+      rw [hp, hA2, List.append_assoc]
+    · have hfl : (encFringe s p).length = s.enc.blockLen := by
+        have : (encFringe s p).length ≤ s.enc.blockLen := by
+          unfold encFringe
+          rw [List.length_append, List.length_take]; omega
+        omega
+      have hu : encFringeU s p = (true, { s with buf := [], written := s.written ++ [Basex.encode s.enc (encFringe s p)] }) := by
+        exact under_nofail { s with buf := [] } _ hs
+      rw [write_long_ok s p hf hb hl (by rw [hu])]
+      rw [hu]
+      obtain ⟨r1, r2, r3, r4, r5, B, hB1, hB2, hB3⟩ := encRest_nofail
+        { s with buf := [], written := s.written ++ [Basex.encode s.enc (encFringe s p)] } (p.drop (encTl s p)) (encTl s p) he hs hf
+      refine ⟨r1, r2, r3, r4, r5, A ++ encFringe s p ++ B, ?_, ?_, ?_⟩
+      · rw [List.length_append, List.length_append, hfl]
+        exact (Nat.dvd_add_right ((Nat.dvd_add_right hA1).mpr (Nat.dvd_refl _))).mpr hB1
+      · rw [List.append_assoc (A ++ encFringe s p), ← hB2, hA2]
+        unfold encFringe encTl
+        simp only [List.append_assoc]
+        rw [take_drop_length]
+      · have hd2 : s.enc.blockLen ∣ (A ++ encFringe s p).length := by
+          rw [List.length_append, hfl]; exact (Nat.dvd_add_right hA1).mpr (Nat.dvd_refl _)
+        rw [hB3, encode_append_of_dvd s.enc he _ B hd2, encode_append_of_dvd s.enc he A _ hA1, ← hA3]
+        simp
+
+theorem encInv_fold (enc : Basex.Enc) (he : enc.WF) (ws : List Bytes) : ∀ (T : Bytes) (s : EncState), EncInv enc T s →
+    EncInv enc (T ++ ws.flatten) (ws.foldl (fun (s : EncState) w => (s.write w).2.2) s) := by
+  induction ws with
+  | nil => intro T s h; simpa using h
+  | cons w ws ih =>
+    intro T s h
+    rw [List.foldl_cons, List.flatten_cons, ← List.append_assoc]
+    exact ih _ _ (encInv_write enc he T s h w).2
 
 /-- with a writer that never fails: every `Write` accepts all its bytes, and
     after `Close` the concatenation of what reached the writer is the one-shot
@@ -77,26 +627,21 @@ theorem encStream_any_split (enc : Basex.Enc) (he : enc.WF) (ws : List Bytes) :
     let s1 := ws.foldl (fun (s : EncState) w => (s.write w).2.2) ({ enc := enc } : EncState)
     let r := s1.close
     r.1 = true ∧ r.2.written.flatten = Basex.encode enc ws.flatten := by
-  sorry
-
-/-- bounded buffering: fewer than one block is held back between calls -/
-theorem encStream_bounded (s : EncState) (hb : 0 < s.enc.blockLen) (hs : s.buf.length < s.enc.blockLen) (p : Bytes) :
-    (s.write p).2.2.buf.length < s.enc.blockLen := by
-  sorry
-
-/-- **faults are sticky and reported**: once an underlying write has failed,
-    every later `Write` reports failure and `Close` does too -/
-theorem encStream_sticky (s : EncState) (hf : s.failed = true) (p : Bytes) :
-    (s.write p).2.1 = false ∧ (s.write p).2.2.failed = true ∧ s.close.1 = false := by
-  sorry
-
-/-- a `Write`/`Close` that reports success has not seen a failing underlying write -/
-theorem encStream_write_reports (s : EncState) (p : Bytes) :
-    (s.write p).2.2.failed = true → (s.write p).2.1 = false ∨ s.failed = true := by
-  sorry
-
-theorem encStream_close_reports (s : EncState) : s.close.2.failed = true → s.close.1 = false := by
-  sorry
+  intro s1 r
+  have hinv : EncInv enc ([] ++ ws.flatten) s1 :=
+    encInv_fold enc he ws [] { enc := enc } ⟨rfl, rfl, rfl, he.block_pos, [], by simp, rfl, by simp [encode_nil]⟩
+  rw [List.nil_append] at hinv
+  obtain ⟨henc, hs, hf, hbd, A, hA1, hA2, hA3⟩ := hinv
+  show s1.close.1 = true ∧ s1.close.2.written.flatten = _
+  unfold EncState.close
+  by_cases hb : s1.buf = []
+  · rw [if_neg (by simp [hb])]
+    refine ⟨by simp [hf], ?_⟩
+    rw [hA3, hA2, hb, List.append_nil]
+  · rw [if_pos (by simp [hf, hb]), under_nofail _ _ hs]
+    refine ⟨rfl, ?_⟩
+    simp only [List.flatten_append, List.flatten_cons, List.flatten_nil, List.append_nil]
+    rw [hA3, hA2, henc, encode_append_of_dvd enc he A _ hA1]
 
 /-! ## the scripted source: fragmentation -/
 
@@ -111,6 +656,22 @@ def srcData : Source → Bytes
 theorem srcRead_prefix (cap : Nat) (src : Source) :
     let r := srcRead cap src
     r.1.length ≤ cap ∧ srcData src = r.1 ++ (match r.2.1 with | some _ => [] | none => srcData r.2.2) := by
-  sorry
+  intro r
+  cases src with
+  | nil => simp [r, srcRead, srcData]
+  | cons hd rest =>
+    obtain ⟨d, e⟩ := hd
+    by_cases hc : d.length ≤ cap
+    · have hr : r = (d, e, rest) := by simp [r, srcRead, hc]
+      rw [hr]
+      cases e with
+      | none => simp [srcData, hc]
+      | some x => simp [srcData, hc]
+    · have hr : r = (d.take cap, none, (d.drop cap, e) :: rest) := by simp [r, srcRead, hc]
+      rw [hr]
+      refine ⟨by simp [List.length_take]; omega, ?_⟩
+      cases e with
+      | none => simp [srcData, ← List.append_assoc]
+      | some x => simp [srcData]
 
 end Saltpack.Proofs
